@@ -20,6 +20,21 @@ CHECKS = {
         technique="bounded exhaustive enumeration of inputs (all token strings up to length L, all 1-2 edit neighbours and all prefixes of seed documents) executed on the real loader",
         text="Every byte string composed of <= 4 (thorough 5) tokens of a 40-token XML alphabet, every prefix and every single (thorough: every pair of) token/byte edit of 12 seed documents and a nesting ladder are loaded strictly, leniently and probed with check_buffer; panics, aborts, hangs, out-of-range error lines and check_buffer/load disagreement are violations. Exhaustive inside these bounds, silent outside them.",
         note="Trusted: catch_unwind reports every panic; a stack overflow is only observed in the child-process ladder. Inputs longer than the bound that are not within 2 edits of a seed are not covered."),
+    "C18": dict(
+        engine="tablesweep", category="exploration", design="DESIGN.md section 5, C18",
+        technique="complete enumeration of the finite specification tables (all names, items, versions, element definitions x versions, reference x target datatype pairs) and of all 1-edit (thorough: 2-edit) neighbour strings",
+        text="Every element name, attribute name and enum item (complete tables through the verif hook) is converted text->item->text; every one-edit neighbour, truncation and extension of every text (thorough: every two-edit neighbour, 1.9e9 strings) must be rejected unless it is itself a member; every version value/bit/file name; for all 9160 element definitions x 21 versions every listed sub-element and attribute is looked up and every unlisted name is looked up per datatype; every reference datatype x identifiable datatype pair is checked for DEST proposals. The finite part of the property is covered completely.",
+        note="Trusted: the verif hook returns the very tables the lookups use. Non-member texts further than two edits from every member are not enumerated."),
+    "C19": dict(
+        engine="dfaconf", category="model_checking", design="DESIGN.md section 5, C19",
+        technique="explicit-state model (minimal DFA compiled from the published regex by the harness's own parser) with W-method conformance suites and exhaustive short-string enumeration replayed on the real validator functions; model cross-checked against the regex crate on every string",
+        text="For each of the 28 validator/regex pairs the minimal DFA of the regex is the model; the suite state-cover x all 256 bytes x characterisation set covers every transition of the model with every byte value, cover x reduced-alphabet^(<=k+1) x W detects any implementation with up to k extra states (k=1 quick, 2-3 thorough), plus all strings up to length 5-6 (thorough up to 10) over the reduced alphabet and all one-byte edits of a member through every state. Every string is executed on the real check function and compared with the model.",
+        note="Trusted: the harness's regex->DFA construction (bound to the regex crate on every tested string; disagreement is a machinery error). '.' is any byte except LF; CR is not judged for regexes using '.'. Implementations with more than k extra states may hide differences on long strings."),
+    "C20": dict(
+        engine="dfaconf", category="model_checking", design="DESIGN.md section 5, C20",
+        technique="exhaustive enumeration of all members (up to a length bound) of the integer/numerical/boolean pattern automata and of value alphabets, each executed on the real parse/format functions and compared with an independent integer-arithmetic reference",
+        text="Every member of length <= 8 (thorough 10) of the integer, numerical and boolean patterns over a 19-character alphabet plus ~550 boundary texts (2^k-1, 2^k, 2^k+1 in every radix for k up to 128, extreme exponents) is interpreted with parse_integer for 12 integer types, parse_float and parse_bool and compared with a big-integer reference (correct rounding half-to-even, bound to std on decimal forms). 49152 f64 bit patterns (every exponent x sign x 12 mantissas), ~330 u64 boundary values and all strings of <= 3 (4) characters over an escapable alphabet are formatted and parsed back through set_attribute_string and through serialize+load; every enum item of every attribute enum spec is round-tripped in 4 (21) versions.",
+        note="Trusted: the reference arithmetic in harness/src/common/bignum.rs. Values outside the alphabets and texts longer than the bound are not covered. Whitespace-only strings are not values in the file route."),
 }
 
 PLANNED = {
